@@ -36,7 +36,10 @@ reference to the object is created).  The pair compiles to "append, x := live"; 
 `Py.aliasLast σ.x σ.l >>= fun o => o.attr` (`AttributeError` for `none`, the non-Python error `.alias` for `stale`,
 which the tie theorem shows never happens - like `.fuel`); `x.attr = v` / `x.attr.append(v)` replace the last
 element (`Py.setLast`).  For a `Stack` the last element is the head (`Py.aliasTop`, `Py.setTop`).  Attribute types
-come from `record_fields[(element type, attr)]`.
+come from `record_fields[(element type, attr)]`.  When the list holds a sum type and the object is one of its cases
+the entry is `{"list": l, "type": record type, "embed": "(C {0})", "view": "(asC {0})"}` (`view : element -> Py.M record`).
+
+`skip_stmts` lists call statements that are not translated at all (logging); their arguments are not looked at.
 
 Two further small profile entries: `truthy` maps a Lean type to the template of the truth value of its Python
 objects (classes that define `__len__` / `__bool__`; the default for `Option T` is `isSome`), and `none_init` lists
@@ -109,7 +112,7 @@ def balanced(s):
 
 
 LEAN_RESERVED = {"prec", "postfix", "prefix", "infix", "infixl", "infixr", "end", "at", "from", "to", "by", "do", "then", "else", "if",
-                 "let", "have", "show", "fun", "match", "with", "in", "open", "section", "namespace", "variable", "def",
+                 "let", "have", "show", "fun", "match", "with", "in", "open", "section", "namespace", "variable", "variables", "def",
                  "theorem", "instance", "structure", "class", "where", "deriving", "local", "import", "mutual", "private",
                  "protected", "notation", "macro", "syntax", "elab", "term", "Type", "Prop", "Sort", "true", "false", "some",
                  "none", "id", "max", "min", "set", "bind", "pure"}
@@ -176,6 +179,7 @@ class Fn:
         for x in profile.get("stmt_externals", []):
             self.sext.append((ast.parse(x[0]).body[0], x[1], x[2], (x[3] if len(x) > 3 else None)))
         self.skip = [ast.parse(p, mode="eval").body for p in profile.get("skip_if", ["settings.debugging"])]
+        self.skips = [ast.parse(p, mode="eval").body for p in profile.get("skip_stmts", [])]
         self.aux = []             # auxiliary loop definitions (text), in dependency order
         self.nloop = 0
         self.used_ext = []
@@ -190,7 +194,14 @@ class Fn:
         self.ret_ty = profile.get("ret")
         if self.ret_ty:
             self.locals["ret"] = f"Option {paren(self.ret_ty)}"
-        self.alias = dict(profile.get("alias_last", {}))      # alias local -> list local
+        self.alias = {}                                          # alias local -> list local
+        self.alias_view = {}                                     # alias local -> (record type, embed template, view template)
+        for x, spec in profile.get("alias_last", {}).items():
+            if isinstance(spec, dict):
+                self.alias[x] = spec["list"]
+                self.alias_view[x] = (spec["type"], spec["embed"], spec["view"])
+            else:
+                self.alias[x] = spec
         self.alias_pairs = set()                                 # id() of the `l.append(x)` statements of the pairs
         for x, lst in self.alias.items():
             if lst not in self.locals or not re.match(r"(List|Stack) ", self.locals[lst]):
@@ -242,13 +253,19 @@ class Fn:
         """the extra field updates when the list `lst` changes other than by an alias pair"""
         return "".join(f", {x} := σ.{x}.detach" for x in self.alias_of_list(lst))
 
+    def alias_type(self, x):
+        """the record type of the object behind x: the element type of the list, or the `type` of a view"""
+        return self.alias_view[x][0] if x in self.alias_view else elem_type(self.locals[self.alias[x]])
+
     def alias_get(self, x):
         lst = self.alias[x]
         prim = "Py.aliasTop" if self.locals[lst].startswith("Stack ") else "Py.aliasLast"
+        if x in self.alias_view:
+            return f"({prim} σ.{x} σ.{lst} >>= fun o => {self.alias_view[x][2].format('o')})"
         return f"{prim} σ.{x} σ.{lst}"
 
     def alias_field(self, x, attr):
-        ety = elem_type(self.locals[self.alias[x]])
+        ety = self.alias_type(x)
         fty = self.p.get("record_fields", {}).get((ety, attr))
         if fty is None:
             raise Untranslatable(f"alias_last: no record_fields entry for ({ety}, {attr})")
@@ -258,6 +275,8 @@ class Fn:
         """`let σ := …` that replaces the last element of the list by `upd` (a term that may mention `o`, the old one)"""
         lst = self.alias[x]
         prim = "Py.setTop" if self.locals[lst].startswith("Stack ") else "Py.setLast"
+        if x in self.alias_view:
+            upd = self.alias_view[x][1].format(upd)
         return f"let σ := {{ σ with {lst} := {prim} σ.{lst} {upd} }}"
 
     def check_none_init(self):
@@ -630,6 +649,8 @@ class Fn:
             return f"{term} >>= fun σ =>\n{after()}"
         if isinstance(s, (ast.Import, ast.ImportFrom, ast.Pass)):
             return after()
+        if isinstance(s, ast.Expr) and isinstance(s.value, ast.Call) and any(match_pattern(p, s.value, {}) for p in self.skips):
+            return after()
         if isinstance(s, ast.If) and any(ast.dump(s.test) == ast.dump(p) for p in self.skip) and not s.orelse:
             return after()
         if isinstance(s, ast.AnnAssign):
@@ -658,9 +679,11 @@ class Fn:
                 if not rest or id(rest[0]) not in self.alias_pairs:
                     raise Untranslatable(f"alias_last: `{ast.unparse(s)[:50]}` is not followed by `{lst}.append({x})`")
                 e = self.ce(s.value)
-                want = elem_type(self.locals[lst])
+                want = self.alias_type(x)
                 if e.ty != want:
-                    raise Untranslatable(f"alias_last: '{lst}' holds {want}, `{ast.unparse(s.value)[:40]}` is {e.ty}")
+                    raise Untranslatable(f"alias_last: '{x}' stands for {want}, `{ast.unparse(s.value)[:40]}` is {e.ty}")
+                if x in self.alias_view:
+                    e = self.bind1(e, lambda v: self.alias_view[x][1].format(paren(v)), elem_type(self.locals[lst]))
                 others = "".join(f", {y} := σ.{y}.detach" for y in self.alias_of_list(lst) if y != x)
                 app = (lambda v: f"({v} :: σ.{lst})") if self.locals[lst].startswith("Stack ") else (lambda v: f"(σ.{lst} ++ [{v}])")
                 cont = self.cs(rest[1:], k, loopk, brk)
@@ -702,6 +725,9 @@ class Fn:
             if isinstance(t, ast.Attribute):
                 fld = ast.unparse(t).replace(".", "_")
                 if fld in self.locals:
+                    val = s.value
+                    if isinstance(val, ast.Call) and isinstance(val.func, ast.Attribute) and val.func.attr == "pop" and not val.args and self.try_external(val) is None:
+                        return self.pop_stmt(val.func.value, lambda x: self._let(fld, x), rest, k, loopk, brk)
                     return self._assign(fld, self.ce(s.value), rest, k, loopk, brk)
                 if isinstance(t.value, ast.Name) and t.value.id in self.locals and (self.locals[t.value.id], t.attr) in self.p.get("record_fields", {}):
                     loc, fty = t.value.id, self.p["record_fields"][(self.locals[t.value.id], t.attr)]
